@@ -5,6 +5,7 @@ import LexVerif.Model.FormatDecimal
 import LexVerif.Model.Ops.ParseInt
 import LexVerif.Model.Ops.FormatError
 import LexVerif.Model.Ops.WriteInt
+import LexVerif.Model.Ops.ParseFloat
 /-!
 # Driver — line-protocol evaluator of the Lean models and specifications
 
@@ -49,11 +50,15 @@ def pOptsOf (a : List String) : POpts :=
   { lossy := a.getD 0 "0" = "1", exp := parseNatD (a.getD 1 "101"), dp := parseNatD (a.getD 2 "46"),
     nan := optBytes (a.getD 3 "-"), inf := optBytes (a.getD 4 "-"), infinity := optBytes (a.getD 5 "-") }
 
-def specPF (ty : String) (fmt : Format) (partial_ : Bool) (o : POpts) (input : List Nat) : String :=
+def specPF (feats : Features) (ty : String) (fmt : Format) (partial_ : Bool) (o : POpts) (input : List Nat) : String :=
   match Fmt.ofName ty with
   | none => "-"
   | some f =>
-    if isPlain fmt then
+    -- the grammar oracle speaks about valid options only (invalid ones: error paths of the entry points, model column)
+    -- … and about formats the feature set supports (others: `InvalidRadix`-style errors, model column).
+    -- `lossy` is ignored here: the value given is the correctly rounded one (C19 applies its 1-ulp tolerance).
+    if isPlain fmt && (optionsError o).isNone && isValidOptionsPunctuation feats fmt o.exp o.dp
+        && checkRadix feats fmt then
       let r := fmt.mantissaRadix
       let res := if partial_ then parseStd r fmt.exponentRadix o input else parseStdComplete r fmt.exponentRadix o input
       res.render f r fmt.exponentBase partial_
@@ -135,8 +140,8 @@ def specOf (feats : Features) (t : List String) : String :=
   | "pi", [ty, f, p, _nm, h] => specPI ty (fmtOf f) (p = "1") (unhexBytes h)
   | "dwi", ty :: v :: rest => specWIbuf ty Format.standard feats (parseIntD v) (rest.headD "-")
   | "wi", ty :: f :: v :: rest => specWIbuf ty (fmtOf f) feats (parseIntD v) (rest.headD "-")
-  | "dpf", [ty, p, h] => specPF ty Format.standard (p = "1") (pOptsOf defaultPOpts) (unhexBytes h)
-  | "pf", ty :: f :: p :: rest => specPF ty (fmtOf f) (p = "1") (pOptsOf (rest.take 6)) (unhexBytes (rest.getD 6 "_"))
+  | "dpf", [ty, p, h] => specPF feats ty Format.standard (p = "1") (pOptsOf defaultPOpts) (unhexBytes h)
+  | "pf", ty :: f :: p :: rest => specPF feats ty (fmtOf f) (p = "1") (pOptsOf (rest.take 6)) (unhexBytes (rest.getD 6 "_"))
   | "dwf", ty :: b :: _ => specWF' ty Format.standard feats ((ofHex b).getD 0) (wOptsOf defaultWOpts)
   | "wf", ty :: f :: b :: rest => specWF' ty (fmtOf f) feats ((ofHex b).getD 0) (wOptsOf (rest.take 10))
   | "jfmt", ty :: f :: b :: rest =>
@@ -159,7 +164,8 @@ def specOf (feats : Features) (t : List String) : String :=
 /-- model column: the first handler that recognises the op answers.
 Each `Model/Ops/*.lean` exposes `handle : Features → List String → Option String`. -/
 def modelHandlers : List (Features → List String → Option String) :=
-  [LexVerif.Model.Ops.ParseInt.handle, LexVerif.Model.Ops.FormatError.handle, LexVerif.Model.Ops.WriteInt.handle]
+  [LexVerif.Model.Ops.ParseInt.handle, LexVerif.Model.Ops.FormatError.handle, LexVerif.Model.Ops.WriteInt.handle,
+   LexVerif.Model.Ops.ParseFloat.handle]
 
 def modelOf (feats : Features) (t : List String) : String :=
   (modelHandlers.findSome? (fun h => h feats t)).getD "-"
